@@ -152,9 +152,20 @@ class StoreProxy:
         streak[key] = 0
         return False
 
+    def _span(self, name):
+        sp = {"name": name, "t0": VClock.t, "t1": None, "ok": None}
+        spans = self.__dict__.setdefault("write_spans", [])
+        spans.append(sp)
+        return sp
+
     async def append_tick(self, run_id, tick_data):
-        await self._pause(write=True)
-        await self._inner.append_tick(run_id, tick_data)
+        sp = self._span("append_tick")
+        try:
+            await self._pause(write=True)
+            await self._inner.append_tick(run_id, tick_data)
+            sp["ok"] = True
+        finally:
+            sp["t1"] = VClock.t
         self.n_ticks += 1
         if self.crash_after_tick is not None and self.n_ticks >= self.crash_after_tick:
             self.crashed.set()
@@ -164,10 +175,16 @@ class StoreProxy:
         cb = getattr(self, "on_status_write_start", None)
         if cb is not None:
             cb(run_id, kw)  # harness observer: a status write is about to begin (before its latency)
-        await self._pause(write=True)
-        if self._should_fail("update_handler_status"):
-            raise OSError("injected store write failure")
-        await self._inner.update_handler_status(run_id, **kw)
+        sp = self._span("update_handler_status")
+        try:
+            await self._pause(write=True)
+            if self._should_fail("update_handler_status"):
+                sp["ok"] = False
+                raise OSError("injected store write failure")
+            await self._inner.update_handler_status(run_id, **kw)
+            sp["ok"] = True
+        finally:
+            sp["t1"] = VClock.t
         if kw.get("status") is not None:
             self.status_writes.append((VClock.t, run_id, kw["status"]))
 
@@ -179,10 +196,17 @@ class StoreProxy:
         self.status_writes.append((VClock.t, handler.run_id, handler.status))
 
     async def append_event(self, run_id, envelope):
-        await self._pause(write=True)
-        if self._should_fail("append_event"):
-            raise OSError("injected store write failure")
-        return await self._inner.append_event(run_id, envelope)
+        sp = self._span("append_event")
+        try:
+            await self._pause(write=True)
+            if self._should_fail("append_event"):
+                sp["ok"] = False
+                raise OSError("injected store write failure")
+            res = await self._inner.append_event(run_id, envelope)
+            sp["ok"] = True
+            return res
+        finally:
+            sp["t1"] = VClock.t
 
 
 # ------------------------------------------------------------------ lives
